@@ -27,6 +27,7 @@ import (
 	"github.com/apache/arrow-go/v18/arrow"
 	"github.com/apache/arrow-go/v18/arrow/array"
 	"github.com/apache/arrow-go/v18/arrow/ipc"
+	"github.com/apache/arrow-go/v18/arrow/memory"
 )
 
 // ---------------------------------------------------------------- JSON values
@@ -84,6 +85,8 @@ func c38Coq(v c38JV) string {
 		return App("C38.JObj", c38RecCoq(v.O))
 	case "a":
 		return App("C38.JArr", ListOf(v.A, c38Coq))
+	case "g": // a long string handed over by length + content check (I = length, B = content ok)
+		return App("C38.JBig", Z(v.I), Bool(v.B))
 	}
 	return "C38.JNull"
 }
@@ -292,22 +295,23 @@ type c38Egress struct {
 }
 
 type c38Direct struct {
-	Method     string     `json:"method"`
-	Stream     bool       `json:"stream"`
-	Protocol   string     `json:"protocol"`
-	ServerID   string     `json:"server_id"`
-	Hash       string     `json:"hash"`
-	ReqID      string     `json:"req_id"`
-	Remote     string     `json:"remote"`
-	HTTPStatus int        `json:"http_status"`
-	Payload    []byte     `json:"payload"`
-	StreamID   string     `json:"stream_id"`
-	Cancelled  bool       `json:"cancelled"`
-	Err        *c38Err    `json:"err,omitempty"`
-	Stats      *[6]int64  `json:"stats,omitempty"` // in_batches out_batches in_rows out_rows in_bytes out_bytes
-	Egress     *c38Egress `json:"egress,omitempty"`
-	NilToken   bool       `json:"nil_token,omitempty"`
-	Ver        string     `json:"ver"`
+	Method      string     `json:"method"`
+	Stream      bool       `json:"stream"`
+	Protocol    string     `json:"protocol"`
+	ServerID    string     `json:"server_id"`
+	Hash        string     `json:"hash"`
+	ReqID       string     `json:"req_id"`
+	Remote      string     `json:"remote"`
+	HTTPStatus  int        `json:"http_status"`
+	Payload     []byte     `json:"payload"`
+	PayloadSize int        `json:"payload_size,omitempty"` // > 0: RequestData is this many generated bytes
+	StreamID    string     `json:"stream_id"`
+	Cancelled   bool       `json:"cancelled"`
+	Err         *c38Err    `json:"err,omitempty"`
+	Stats       *[6]int64  `json:"stats,omitempty"` // in_batches out_batches in_rows out_rows in_bytes out_bytes
+	Egress      *c38Egress `json:"egress,omitempty"`
+	NilToken    bool       `json:"nil_token,omitempty"`
+	Ver         string     `json:"ver"`
 }
 
 type c38Op struct {
@@ -324,6 +328,8 @@ type c38Op struct {
 	Cancel bool    `json:"cancel,omitempty"`
 	Vals   []int64 `json:"vals,omitempty"`
 	Ticks  int     `json:"ticks,omitempty"` // pipe_stream: number of input batches sent
+	// unary / init / pipe_*: > 0 = call the *_blob method with one binary parameter of this many bytes
+	BlobSize int `json:"blob_size,omitempty"`
 	// request shape
 	BatchReqID string `json:"batch_req_id,omitempty"`
 	XReqID     string `json:"x_req_id,omitempty"`
@@ -511,6 +517,12 @@ func (e *c38Err) raise() (error, c38ErrObs) {
 
 func c38RunDirect(op c38Op) (coq string, recs [][]c38KV, tags []string) {
 	d := op.Direct
+	if d.PayloadSize > 0 {
+		dd := *d
+		dd.Payload = c38BlobBytes(d.PayloadSize)
+		d = &dd
+		tags = append(tags, c38SizeTag(d.PayloadSize))
+	}
 	var buf bytes.Buffer
 	hook := vgirpc.NewAccessLogHook(&buf, d.Ver)
 	hook.SetDebug(op.Debug)
@@ -548,6 +560,7 @@ func c38RunDirect(op c38Op) (coq string, recs [][]c38KV, tags []string) {
 	}()
 	c38Uninstall()
 	recs = c38Lines(buf.Bytes())
+	c38Elide(recs, d.Payload)
 	fresh := ""
 	if d.Stream && d.StreamID == "" && len(recs) > 0 {
 		if v, ok := c38Get(recs[0], "stream_id"); ok {
@@ -557,7 +570,7 @@ func c38RunDirect(op c38Op) (coq string, recs [][]c38KV, tags []string) {
 	}
 	coq = App("C38.ODirect", App("C38.Build_dinfo",
 		c38S(d.Method), Bool(d.Stream), c38S(d.Protocol), c38S(d.ServerID), c38S(d.Hash), c38S(d.ReqID), c38S(d.Remote),
-		Z(int64(d.HTTPStatus)), c38S(string(d.Payload)), c38S(d.StreamID), c38S(fresh), Bool(d.Cancelled),
+		Z(int64(d.HTTPStatus)), c38PayloadCoq(d.Payload), c38S(d.StreamID), c38S(fresh), Bool(d.Cancelled),
 		c38AuthCoq(op.Auth), c38ErrCoq(eobs), c38StatsCoq(d.Stats), c38EgCoq(eg),
 		Bool(op.Debug), c38S(d.Ver), c38TraceCoq(op.Trace), c38RedCoq(op.Redactor)))
 	tags = append(tags, "direct")
@@ -615,6 +628,7 @@ func c38NewWorld(ver string) *c38World {
 	w.hook = vgirpc.NewAccessLogHook(&w.log, ver)
 	mkh := func(id string, hook bool) *vgirpc.Server {
 		s := NewScriptedServer(w.sf)
+		c38AddBlobMethods(s, w.sf)
 		s.SetServiceName("ScriptSvc")
 		s.SetServerID(id)
 		if hook {
@@ -726,11 +740,106 @@ func c38Payload(reqBody []byte) []byte {
 	if !rd.Next() {
 		return nil
 	}
-	b, err := vgirpc.SerializeRequestBatch(rd.RecordBatch())
-	if err != nil {
+	// the documented re-encoding (one schema message + one record batch message),
+	// done here with arrow-go directly so that the oracle does not depend on the
+	// function under test
+	batch := rd.RecordBatch()
+	var buf bytes.Buffer
+	wr := ipc.NewWriter(&buf, ipc.WithSchema(batch.Schema()))
+	if err := wr.Write(batch); err != nil {
+		wr.Close()
 		return nil
 	}
+	if err := wr.Close(); err != nil {
+		return nil
+	}
+	return buf.Bytes()
+}
+
+// payloads above this many bytes are handed to Coq by size only
+const c38BigPayload = 2048
+
+func c38PayloadCoq(p []byte) string {
+	if len(p) > c38BigPayload {
+		return App("C38.PBig", N(uint64(len(p))))
+	}
+	return App("C38.PBytes", c38S(string(p)))
+}
+
+// c38Elide replaces, for a large request, each record's request_data string by
+// its length and the verdict of the content check (base64 of the payload).
+func c38Elide(recs [][]c38KV, payload []byte) {
+	if len(payload) <= c38BigPayload {
+		return
+	}
+	want := base64.StdEncoding.EncodeToString(payload)
+	for _, r := range recs {
+		for j := range r {
+			if r[j].K == "request_data" && r[j].V.T == "s" {
+				r[j].V = c38JV{T: "g", I: int64(len(r[j].V.S)), B: r[j].V.S == want}
+			}
+		}
+	}
+}
+
+// blob methods: one int64 and one binary parameter
+type PBlob struct {
+	X    int64  `vgirpc:"x"`
+	Blob []byte `vgirpc:"blob"`
+}
+
+var c38BlobSchema = arrow.NewSchema([]arrow.Field{{Name: "x", Type: arrow.PrimitiveTypes.Int64}, {Name: "blob", Type: arrow.BinaryTypes.Binary}}, nil)
+
+func c38BlobBytes(n int) []byte {
+	b := make([]byte, n)
+	for i := range b {
+		b[i] = byte(i*31 + i>>8)
+	}
 	return b
+}
+
+func c38ReqBatch(op *c38Op) arrow.RecordBatch {
+	if op.BlobSize <= 0 {
+		return PIntBatch(op.X)
+	}
+	xb := array.NewInt64Builder(memory.DefaultAllocator)
+	defer xb.Release()
+	xb.Append(op.X)
+	bb := array.NewBinaryBuilder(memory.DefaultAllocator, arrow.BinaryTypes.Binary)
+	defer bb.Release()
+	bb.Append(c38BlobBytes(op.BlobSize))
+	xa, ba := xb.NewArray(), bb.NewArray()
+	defer xa.Release()
+	defer ba.Release()
+	return array.NewRecordBatch(c38BlobSchema, []arrow.Array{xa, ba}, 1)
+}
+
+// c38AddBlobMethods registers u_blob / prod_blob / exch_blob on a scripted server.
+func c38AddBlobMethods(s *vgirpc.Server, sf *Surface) {
+	vgirpc.Unary(s, "u_blob", func(_ context.Context, cc *vgirpc.CallContext, p PBlob) (int64, error) {
+		c := sf.popUnary()
+		sf.trace("u_blob(x=%d,n=%d)", p.X, len(p.Blob))
+		if c.Err != nil {
+			return 0, c.Err.raise()
+		}
+		return c.Value + p.X + int64(len(p.Blob)), nil
+	})
+	initB := func(name string, exchange bool) func(context.Context, *vgirpc.CallContext, PBlob) (*vgirpc.StreamResult, error) {
+		return func(_ context.Context, cc *vgirpc.CallContext, p PBlob) (*vgirpc.StreamResult, error) {
+			c := sf.popStream()
+			sf.trace("%s.init(x=%d,n=%d)", name, p.X, len(p.Blob))
+			if c.Init.Err != nil {
+				return nil, c.Init.Err.raise()
+			}
+			r := &vgirpc.StreamResult{OutputSchema: outSchemaV, State: &ScriptState{SID: sf.ID, Turns: c.Turns}}
+			if exchange {
+				r.InputSchema = inSchemaX
+			}
+			return r, nil
+		}
+	}
+	vgirpc.Producer(s, "prod_blob", outSchemaV, initB("prod_blob", false))
+	vgirpc.Exchange(s, "exch_blob", outSchemaV, inSchemaX, initB("exch_blob", true))
 }
 
 const c38Arrow = "application/vnd.apache.arrow.stream"
@@ -792,7 +901,7 @@ func (w *c38World) reqEnvCoq(op *c38Op, method string, payload []byte, e c38ErrO
 		st = c38StatsOf(recs[0])
 	}
 	return App("C38.Build_req_env", c38S(method), c38S("ScriptSvc"), c38S(sid), c38S(w.servers[0].ProtocolHash()),
-		c38S(op.BatchReqID), c38S(remote), c38S(string(payload)), c38AuthCoq(auth), c38ErrCoq(e), c38StatsCoq(st), c38EgCoq(eg),
+		c38S(op.BatchReqID), c38S(remote), c38PayloadCoq(payload), c38AuthCoq(auth), c38ErrCoq(e), c38StatsCoq(st), c38EgCoq(eg),
 		Bool(op.Debug), c38S(w.hook_ver()), c38TraceCoq(op.Trace), c38RedCoq(op.Redactor), Z(int64(wireReq)))
 }
 
@@ -858,7 +967,9 @@ func (w *c38World) runOp(idx int, op *c38Op) (string, c38OpOut, []string) {
 		} else if op.Kind == "unary" {
 			w.sf.PushUnary(*op.Call)
 		}
-		body := ReqBytes(PIntBatch(op.X), StdMeta(method, op.BatchReqID, ""))
+		reqBatch := c38ReqBatch(op)
+		body := ReqBytes(reqBatch, StdMeta(method, op.BatchReqID, ""))
+		reqBatch.Release()
 		path := "/" + method
 		if op.Kind == "init" {
 			path += "/init"
@@ -880,6 +991,10 @@ func (w *c38World) runOp(idx int, op *c38Op) (string, c38OpOut, []string) {
 			tags = append(tags, "finding-chunked-request-bytes")
 		}
 		payload := c38Payload(body)
+		c38Elide(recs, payload)
+		if op.BlobSize > 0 {
+			tags = append(tags, c38SizeTag(op.BlobSize))
+		}
 		var first []c38KV
 		if len(recs) > 0 {
 			first = recs[0]
@@ -1001,7 +1116,9 @@ func (w *c38World) runOp(idx int, op *c38Op) (string, c38OpOut, []string) {
 	case "pipe_unary", "pipe_stream":
 		method := op.Method
 		var in bytes.Buffer
-		in.Write(ReqBytes(PIntBatch(op.X), StdMeta(method, op.BatchReqID, "")))
+		reqBatch := c38ReqBatch(op)
+		in.Write(ReqBytes(reqBatch, StdMeta(method, op.BatchReqID, "")))
+		reqBatch.Release()
 		if op.Kind == "pipe_stream" {
 			w.sf.PushStream(*op.Stream)
 			exchange := strings.HasPrefix(method, "exch")
@@ -1023,6 +1140,10 @@ func (w *c38World) runOp(idx int, op *c38Op) (string, c38OpOut, []string) {
 		payload := c38Payload(in.Bytes())
 		_, esc := RunPipe(w.pipe, in.Bytes())
 		recs := c38Lines(w.log.Bytes())
+		c38Elide(recs, payload)
+		if op.BlobSize > 0 {
+			tags = append(tags, c38SizeTag(op.BlobSize))
+		}
 		out := c38OpOut{Records: recs}
 		if esc != nil {
 			out.Note = fmt.Sprint("escaped panic: ", esc)
@@ -1053,6 +1174,20 @@ func (w *c38World) runOp(idx int, op *c38Op) (string, c38OpOut, []string) {
 		return App("C38.OPipeStream", w.reqEnvCoq(op, method, payload, e, recs, false, in.Len(), c38Anon), c38S(sid)), out, append(tags, "err-"+e.Kind)
 	}
 	panic("c38: bad op kind " + op.Kind)
+}
+
+func c38SizeTag(n int) string {
+	switch {
+	case n > 4<<20:
+		return "req-over-4MiB"
+	case n == 4<<20:
+		return "req-4MiB"
+	case n >= 1<<20:
+		return "req-1MiB-to-4MiB"
+	case n >= 64<<10:
+		return "req-64KiB-to-1MiB"
+	}
+	return "req-blob-small"
 }
 
 func c38Uniq(xs []string) []string {
@@ -1419,6 +1554,18 @@ func c38GenHistory(r *rand.Rand, tier string) c38In {
 			op.Reject = []string{"unknown_method", "auth", "content_type"}[r.Intn(3)]
 			op.Call = &CallScript{}
 		}
+		if r.Intn(6) == 0 { // a request with one binary parameter of some size class
+			sizes := []int{1, 1 << 10, 3000, 64 << 10, 1 << 20, 4<<20 - 1, 4 << 20, 4<<20 + 1, 5 << 20}
+			switch op.Kind {
+			case "unary", "pipe_unary":
+				op.Method, op.BlobSize = "u_blob", sizes[r.Intn(len(sizes))]
+			case "init":
+				op.Method, op.BlobSize = []string{"prod_blob", "exch_blob"}[r.Intn(2)], sizes[r.Intn(len(sizes))]
+				op.Stream.Header = nil
+			case "pipe_stream":
+				op.Method, op.BlobSize = op.Method+"_blob", sizes[r.Intn(len(sizes))]
+			}
+		}
 		in.Ops = append(in.Ops, op)
 	}
 	return in
@@ -1482,6 +1629,9 @@ func c38GenDirect(r *rand.Rand) c38Op {
 		}
 		d.Egress = e
 	}
+	if r.Intn(12) == 0 {
+		d.Payload, d.PayloadSize = nil, []int{2049, 100000, 4<<20 + 1}[r.Intn(3)]
+	}
 	op.Direct = d
 	return op
 }
@@ -1540,6 +1690,42 @@ func c38Gen(r *rand.Rand, n int, tier string) []c38In {
 	for v := 0; v < 3; v++ {
 		out = append(out, mkLate("exch", v), mkLate("prod", v))
 	}
+	// request SIZE classes: one binary parameter of 1 KiB ... 16 MiB on every
+	// capture site (HTTP unary, HTTP stream init, pipe unary, pipe stream) with
+	// debug on and off — the record must carry the payload or the marker, and
+	// the payload / omitted size must be those of the request, at every size
+	mkSized := func(size int, full bool, flip bool) c38In {
+		tr, rd := c38Trace{Mode: "none"}, c38Red{Mode: "default"}
+		turns := []TurnScript{{Act: "emit", Value: 1}}
+		in := c38In{}
+		for i, dbg := range []bool{false, true} {
+			ops := []c38Op{
+				{Kind: "unary", Node: i, Method: "u_blob", X: 1, BlobSize: size, Call: &CallScript{Value: 1}, Debug: dbg, Trace: tr, Redactor: rd, Auth: au},
+				{Kind: "init", Node: 1 - i, Method: "exch_blob", X: 2, BlobSize: size, Stream: &StreamScript{Turns: turns}, Debug: dbg, Trace: tr, Redactor: rd, Auth: au},
+				{Kind: "pipe_unary", Method: "u_blob", X: 3, BlobSize: size, Call: &CallScript{Value: 1}, Debug: dbg, Trace: tr, Redactor: rd},
+				{Kind: "pipe_stream", Method: "prod_blob", X: 4, BlobSize: size, Stream: &StreamScript{Turns: turns}, Ticks: 3, Debug: dbg, Trace: tr, Redactor: rd},
+			}
+			if !full { // each site once, debug alternating (and flipped from one class to the next)
+				if dbg != flip {
+					ops = []c38Op{ops[1], ops[2]}
+				} else {
+					ops = []c38Op{ops[0], ops[3]}
+				}
+			}
+			in.Ops = append(in.Ops, ops...)
+		}
+		return in
+	}
+	out = append(out, mkSized(1<<10, true, false), mkSized(64<<10, true, false), mkSized(1<<20, false, false),
+		mkSized(4<<20-1, false, true), mkSized(4<<20, false, false), mkSized(4<<20+1, true, false),
+		mkSized(5<<20, false, true), mkSized(16<<20, false, false))
+	// and the hook itself handed large RequestData directly
+	for _, size := range []int{3000, 5 << 20} {
+		for _, dbg := range []bool{false, true} {
+			out = append(out, c38In{Ops: []c38Op{{Kind: "direct", Debug: dbg, Trace: c38Trace{Mode: "none"}, Redactor: c38Red{Mode: "default"}, Auth: au,
+				Direct: &c38Direct{Method: "m", Protocol: "Svc", ServerID: "sid", Hash: "h", PayloadSize: size}}}})
+		}
+	}
 	// the chunked-request finding: a continuation and a unary call sent without Content-Length
 	out = append(out, c38In{Ops: []c38Op{{Kind: "unary", Method: "u_int", X: 1, Call: &CallScript{}, Chunked: true,
 		Trace: c38Trace{Mode: "none"}, Redactor: c38Red{Mode: "default"}, Auth: au}}})
@@ -1566,7 +1752,7 @@ func c38Gen(r *rand.Rand, n int, tier string) []c38In {
 }
 
 func init() {
-	Register("C38", "boundary cases (each redactor x debug, a stream spanning both nodes with tampered/dropped tokens and a cancel, a chunked request, streams whose /init is served by a node with NO dispatch hook and whose continuations are logged by other nodes or after a late SetDispatchHook), then 40% lists of 1-4 synthetic dispatch infos fed to AccessLogHook directly (all fields, egress recorder via the real countingResponseWriter) and 60% histories of 2-6 requests (2-15 in the thorough tier) (HTTP unary/init/continuations on three nodes sharing the token key — cache+hook, hook only, cache with the hook installed late or never —, pipe unary/stream, refused requests) with scripted outcomes incl. panics, per-request debug flag, trace provider (valid / dashed / uppercase / short / one-sided / panicking), claim sets and redactors, Accept-Encoding; a case is non-trivial when at least one record was logged; distinct = distinct input JSON",
+	Register("C38", "boundary cases (each redactor x debug, a stream spanning both nodes with tampered/dropped tokens and a cancel, a chunked request, request size classes 1 KiB / 64 KiB / 1 MiB / 4 MiB-1 / 4 MiB / 4 MiB+1 / 5 MiB / 16 MiB (one binary parameter) on HTTP unary, HTTP stream init, pipe unary and pipe stream with debug on and off, streams whose /init is served by a node with NO dispatch hook and whose continuations are logged by other nodes or after a late SetDispatchHook), then 40% lists of 1-4 synthetic dispatch infos fed to AccessLogHook directly (all fields, egress recorder via the real countingResponseWriter) and 60% histories of 2-6 requests (2-15 in the thorough tier) (HTTP unary/init/continuations on three nodes sharing the token key — cache+hook, hook only, cache with the hook installed late or never —, pipe unary/stream, refused requests) with scripted outcomes incl. panics, per-request debug flag, trace provider (valid / dashed / uppercase / short / one-sided / panicking), claim sets and redactors, Accept-Encoding; a case is non-trivial when at least one record was logged; distinct = distinct input JSON",
 		c38Gen, c38Run)
 }
 
